@@ -3,6 +3,7 @@ from core import Prog, AnchorLost
 from sym import Sym, pp, walk_terms, const_of
 from rules import is_call, find_calls, arg_field, result_variant, callees, unref
 import e1
+import os
 
 UNITS = {
     "seconds": ("timestamp", {"from_timestamp"}, 1, 0),
@@ -27,7 +28,7 @@ def terms_of(P, fn):
 def run(chk, tier):
     P = Prog("serde")
     chk.configs.add("serde")
-    for r in (r_helpers, r_errors, r_strings, r_timedelta, r_timedelta_pair, r_noreach, r_absint):
+    for r in (r_helpers, r_errors, r_strings, r_timedelta, r_timedelta_pair, r_noreach, r_str_primitive, r_visit_some_errors, r_ts_visitors_map, r_absint):
         chk.guarded(r, P, tier)
     chk.assume("the round trip through concrete data formats (serde_json, bincode) is not decided; serde's own code is outside the analysed crate")
     return {
@@ -117,6 +118,11 @@ def r_helpers(chk, P, tier):
                     if not cands:
                         cands = [c for cl in P.closures_of(fn) for pth in Sym(P, cl).paths() for c in pth.calls if isinstance(c[1], str) and c[1].endswith("::from_timestamp")]
                     ok = bool(cands) and all(const_of(c[2][1]) == 0 for c in cands)
+                if not ok and not os.environ.get("VERIF_NO_VALUE_MAPS"):
+                    # another way of writing the split: the values of every visitor are decided on all unit boundaries by MAP.ts_visitors
+                    chk.assume("SIB.ts_modules: %s splits the value in a form the shape rule does not recognise; decided by MAP.ts_visitors" % fn)
+                    chk.ok(fn + " (by MAP.ts_visitors)")
+                    continue
                 chk.expect(ok, fn, "%s builds the value with %s %s (expected %s, D=%d, M=%d)" % (fn, sorted(used), detail, sorted(ctors), D, M), loc=P.loc(fn))
             # the naive family converts through and_utc()/naive_utc() only
     chk.rule("SIB.option_visitors", "_option visitors delegate to the plain visitor of the same unit (visit_some) and map none/unit to None", floor=16)
@@ -228,3 +234,116 @@ def r_absint(chk, P, tier):
     res = e1.run_engine(P, tier)
     e1.report(chk, P, res, "ABSINT.serde", "every panic-capable site / lossy cast in the serde modules is discharged or justified",
               fn_filter=lambda fn: "serde" in fn, floor=12)
+
+
+def r_str_primitive(chk, P, tier):
+    """every type that serializes as a string (collect_str / serialize_str) asks the deserializer for a string (deserialize_str / deserialize_string): a format that is not
+    self-describing (bincode, postcard) follows the requested primitive, so any other request (identifier, any, bytes) fails to read what was written"""
+    chk.rule("PAIR.str_primitive", "Deserialize of every string-serialized type (dates, times, date-times, Weekday, Month) requests deserialize_str", floor=8)
+    des = [n for n in P.fns if n.endswith("::deserialize") and "serde::Deserialize" in n and "{" not in n and "ts_" not in n and P.has(n)]
+    n_str = 0
+    for fn in sorted(des):
+        ser_ty = fn.split(" for ")[-1].rsplit(">::deserialize", 1)[0] if " for " in fn else fn
+        cs = callees(P, fn)
+        reqs = sorted(c.split("::")[-1] for c in cs if "Deserializer::deserialize_" in c)
+        if not reqs:
+            continue
+        if any(r in ("deserialize_tuple", "deserialize_struct", "deserialize_seq", "deserialize_newtype_struct") for r in reqs):
+            continue        # TimeDelta (secs, nanos): covered by PAIR.timedelta
+        n_str += 1
+        ok = all(r in ("deserialize_str", "deserialize_string") for r in reqs)
+        chk.expect(ok, ser_ty[-60:], "%s requests %s from the deserializer; its Serialize writes a string (collect_str): expected deserialize_str" % (fn, reqs), loc=P.loc(fn))
+    if n_str < 8:
+        raise AnchorLost("only %d string-form Deserialize impls found" % n_str)
+
+
+def r_visit_some_errors(chk, P, tier):
+    """an `_option` visitor must not swallow the error of the value it wraps: visit_some returns the inner deserializer's result mapped with Some (Result::map), it never
+    turns a failure into None / a default (Result::ok, unwrap_or*, or*)"""
+    chk.rule("ERR.visit_some", "every ts_*_option visit_some propagates the inner error (Result::map(.., Some)); no Result::ok / unwrap_or / or", floor=8)
+    swallow = ("::ok", "::unwrap_or", "::unwrap_or_default", "::unwrap_or_else", "::or", "::or_else", "::map_or", "::map_or_else", "::is_ok", "::is_err", "::err")
+    for fam in FAMS:
+        for unit in UNITS:
+            mod = "%sts_%s_option::" % (fam, unit)
+            vs = find_fn(P, mod, "::visit_some")
+            if len(vs) != 1:
+                raise AnchorLost(mod + "visit_some")
+            cs = callees(P, vs[0])
+            bad = sorted(c.split("::")[-1] for c in cs if (c.startswith("std::result::Result::<T, E>") or c.startswith("std::option::Option::<T>")) and c.endswith(swallow))
+            ok = not bad and any(c.endswith("Result::<T, E>::map") for c in cs)
+            chk.expect(ok, vs[0][-70:], "%s handles the inner result with %s (expected Result::map(.., Some): a failure must stay a failure)" % (vs[0], bad or sorted(c.split("::")[-1] for c in cs)), loc=P.loc(vs[0]))
+
+
+def r_ts_visitors_map(chk, P, tier):
+    """the ts_* visitors as a value map: visit_i64 / visit_u64 of every unit and both families folded (no execution; the error constructor symbolic) for values on both sides of
+    zero, of one unit and of the unit's representable range, and the i64 / u64 ends: an accepted value is exactly the instant value * unit after the epoch (calendar oracle), a value
+    outside the date range is refused"""
+    import calendar_oracle as cal
+    from finmap import Folder, show, Unknown
+    from rules import table_value
+    from props.c01 import flags_of
+    chk.rule("MAP.ts_visitors", "visit_i64 / visit_u64 of ts_seconds / _milliseconds / _microseconds / _nanoseconds (both families) folded on all unit boundaries build exactly the instant value * unit, or refuse", floor=200)
+    fo = Folder(P, max_depth=14, opaque=lambda n: "invalid_ts" in n or n.endswith("Error::custom"))
+    tbl = [flags_of(c) for c in table_value(P, "naive::internals::YEAR_TO_FLAGS")]
+    miny, maxy = P.value("naive::date::MIN_YEAR"), P.value("naive::date::MAX_YEAR")
+    NS = 10**9
+    epoch = cal.day_number(1970, 1, 1)
+    dn_min, dn_max = cal.day_number(miny, 1, 1), cal.day_number(maxy, 12, 31)
+
+    def want(total_ns):
+        secs, ns = total_ns // NS, total_ns % NS
+        dn = secs // 86400 + epoch
+        if not dn_min <= dn <= dn_max:
+            return None
+        y = dn * 400 // 146097
+        while cal.day_number(y, 1, 1) > dn:
+            y -= 1
+        while cal.day_number(y + 1, 1, 1) <= dn:
+            y += 1
+        o = dn - cal.day_number(y, 1, 1) + 1
+        return ((y << 13) | (o << 4) | tbl[y % 400], secs % 86400, ns)
+
+    def parts(v):
+        if isinstance(v, tuple) and v[0] == "Result::Err":
+            return None
+        if isinstance(v, tuple) and v[0] == "Result::Ok":
+            x = v[1]
+            ndt = x[1] if x[0] == "DateTime::DateTime" else x
+            try:
+                return (ndt[1][1], ndt[2][1], ndt[2][2])
+            except Exception:
+                pass
+        return ("?", v)
+    bad = {}
+    n = 0
+    for fam in FAMS:
+        for unit, per_sec in (("seconds", 1), ("milliseconds", 1000), ("microseconds", 10**6), ("nanoseconds", NS)):
+            mod = "%sts_%s::" % (fam, unit)
+            scale = NS // per_sec
+            lim = ((dn_max - epoch) * 86400 + 86399) * per_sec + per_sec - 1
+            lo = (dn_min - epoch) * 86400 * per_sec
+            for vname, signed in (("visit_i64", True), ("visit_u64", False)):
+                vs = find_fn(P, mod, "::" + vname)
+                if len(vs) != 1:
+                    raise AnchorLost("%s%s: %d candidates" % (mod, vname, len(vs)))
+                dom = {0, 1, per_sec - 1, per_sec, per_sec + 1, 86400 * per_sec - 1, 86400 * per_sec, lim - 1, lim, lim + 1, 2**63 - 1}
+                if signed:
+                    dom |= {-1, -per_sec + 1, -per_sec, -per_sec - 1, -86400 * per_sec, lo - 1, lo, lo + 1, -(2**63)}
+                    dom = {x for x in dom if -(2**63) <= x <= 2**63 - 1}
+                else:
+                    dom |= {2**63, 2**64 - 1}
+                    dom = {x for x in dom if 0 <= x <= 2**64 - 1}
+                for v in sorted(dom):
+                    try:
+                        got = parts(show(fo.call(vs[0], [("const", "visitor"), ("const", v)])))
+                    except Unknown as e:
+                        got = "unknown: %s" % e
+                    w = want(v * scale)
+                    if got == w:
+                        n += 1
+                    else:
+                        bad.setdefault("%sts_%s::%s" % (fam.split("::")[0], unit, vname), (v, got, w))
+    for _ in range(n):
+        chk.ok("value")
+    for k, (v, got, w) in sorted(bad.items()):
+        chk.bad(k, "%s(%d) folds to %s, the calendar oracle gives %s (yof, second of day, nanosecond; None = refused)" % (k, v, got, w))
